@@ -16,6 +16,7 @@ import (
 	"context"
 	"errors"
 	"fmt"
+	"io"
 	"math/rand"
 	"strconv"
 	"strings"
@@ -252,5 +253,103 @@ func init() {
 			Assumptions: []string{"net.Conn read semantics: n > 0 ⇒ err = nil; a zero-length read returns (0, nil)", "PacketReadTimeout = 1 s in the harness"},
 		}
 		register(p)
+	}
+}
+
+// rdrawImpl: `rdraw <fin> <sched> <hex>` — the loop of Conn.ReadFrom (Packet.ReadFrom per iteration, an
+// error is recorded and the loop goes on) on an arbitrary byte stream; C10, packet level.
+func rdrawImpl(line string) (out string) {
+	defer func() {
+		if r := recover(); r != nil {
+			out = "panic"
+		}
+	}()
+	f := strings.Fields(line)
+	if len(f) != 4 || (f[1] != "e" && f[1] != "r") {
+		return "bad-op"
+	}
+	stream := unhx(f[3])
+	if stream == nil {
+		return "bad-op"
+	}
+	var sched []int
+	if f[2] != "-" {
+		for _, s := range strings.Split(f[2], ".") {
+			n, _ := strconv.Atoi(s)
+			sched = append(sched, n)
+		}
+	}
+	mc := newMemConn()
+	mc.setSched(sched)
+	mc.feed(stream)
+	if f[1] == "e" {
+		mc.end()
+	} else {
+		mc.fail(errors.New("connection reset by peer"))
+	}
+	var items []string
+	for i := 0; i < len(stream)+2; i++ {
+		pkt := &tds.Packet{}
+		_, err := pkt.ReadFrom(context.Background(), mc, 60*time.Millisecond)
+		if err != nil && !errors.Is(err, io.EOF) {
+			items = append(items, "e")
+			if strings.Contains(err.Error(), "invalid packet length") {
+				continue // the header was consumed, the loop goes on with the next bytes
+			}
+			break // the transport has ended: the reader would report this error again and again
+		}
+		h := pkt.Header
+		items = append(items, fmt.Sprintf("P%d.%d.%d.%d.%d.%d:%s", int(h.MsgType), int(h.Status), int(h.Length), int(h.Channel), int(h.PacketNr), int(h.Window), hx(pkt.Data)))
+		if err != nil {
+			items = append(items, "stop")
+			break
+		}
+	}
+	return strings.Join(items, " ")
+}
+
+// rdrawGen: all header values incl. length < 8, streams of 1..3 packets, truncations, read schedules
+func rdrawGen(tier string, rng *rand.Rand, emit func(Case)) {
+	n := 300
+	if tier == "thorough" {
+		n = 3000
+	}
+	scheds := []string{"-", "1.1.1.1.1.1.1.1.1.1.1.1.1.1.1.1", "3.5.2.7.1.9.4", "7.1.8.8.2", "8.9.8.9"}
+	mk := func(typ, st, l, ch, nr, w int, body []byte) []byte {
+		return append([]byte{byte(typ), byte(st), byte(l >> 8), byte(l), byte(ch >> 8), byte(ch), byte(nr), byte(w)}, body...)
+	}
+	// every announced length 0..16 with bodies shorter, equal and longer than announced
+	for l := 0; l <= 16; l++ {
+		for _, bl := range []int{0, 1, 8, 12} {
+			body := rndBytes(rng, bl)
+			emit(Case{Line: fmt.Sprintf("rdraw r - %s", hx(mk(4, 1, l, 0, 0, 0, body))), Kind: "packet-length"})
+			emit(Case{Line: fmt.Sprintf("rdraw r 1.1.1.1.1.1.1.1.1.1 %s", hx(append(mk(4, 0, l, 0, 0, 0, body), mk(4, 1, 9, 0, 1, 0, []byte{0xfd})...))), Kind: "packet-length"})
+		}
+	}
+	// every header type and status value
+	for v := 0; v < 256; v++ {
+		emit(Case{Line: fmt.Sprintf("rdraw r - %s", hx(mk(v, 255-v, 10, v*257%65536, v, v, []byte{1, 2}))), Kind: "packet-header-values"})
+	}
+	for i := 0; i < n; i++ {
+		var s []byte
+		for k := 0; k < 1+rng.Intn(3); k++ {
+			bl := rng.Intn(24)
+			l := bl + 8
+			switch rng.Intn(6) {
+			case 0:
+				l = rng.Intn(8)
+			case 1:
+				l = rng.Intn(65536)
+			}
+			s = append(s, mk(rng.Intn(256), rng.Intn(256), l, rng.Intn(3), rng.Intn(256), rng.Intn(256), rndBytes(rng, bl))...)
+		}
+		if rng.Intn(3) == 0 {
+			s = s[:rng.Intn(len(s)+1)]
+		}
+		fin := "r"
+		if i%10 == 0 {
+			fin = "e" // an EOF inside a body costs the read timeout
+		}
+		emit(Case{Line: fmt.Sprintf("rdraw %s %s %s", fin, scheds[rng.Intn(len(scheds))], hx(s)), Kind: "packet-random"})
 	}
 }
